@@ -5,6 +5,7 @@ package main
 
 import (
 	"math"
+	"sync/atomic"
 
 	logarithmetic "github.com/pbenner/autodiff/logarithmetic"
 	"github.com/pbenner/autodiff/special"
@@ -43,7 +44,7 @@ var libArity = map[string]int{
 // integer parameters (must be integral and small)
 var libIntArg = map[string]int{"Factorial": 0, "BernoulliNumber": 0, "Polygamma": 0, "Mgamma": 1, "Mlgamma": 1}
 
-var libCalls int
+var libCalls int64
 
 // callLib calls the library; msg is "" (returned normally), "unknown", or the panic text.
 func callLib(name string, args []float64) (res float64, msg string) {
@@ -56,7 +57,7 @@ func callLib(name string, args []float64) (res float64, msg string) {
 			return 0, "unknown"
 		}
 	}
-	libCalls++
+	atomic.AddInt64(&libCalls, 1)
 	msg = vh.Try(func() { res = f(args) })
 	return res, msg
 }
